@@ -1,6 +1,6 @@
 """C06 - WSGI, ASGI and the test client are observationally equivalent."""
 PROP = 'C06'
-LEAN_MODULES = ['FalconModel.FinalizeProofs', 'FalconModel.FinalizeProofs2', 'FalconModel.WireProofs']
+LEAN_MODULES = ['FalconModel.FinalizeProofs', 'FalconModel.FinalizeProofs2', 'FalconModel.WireProofs', 'FalconModel.WirePathProofs']
 DRIVERS = ['fzdriver', 'wrdriver']
 THEOREMS = [
     # response side: the two finalization tails agree on every response state (relational theorem) ...
@@ -17,6 +17,21 @@ THEOREMS = [
     # the exclusions of the domain are necessary (witnesses)
     'Wr.repeated_singleton_witness', 'Wr.underscore_wire_name_witness', 'Wr.underscore_lookup_name_witness', 'Wr.non_ascii_lookup_name_witness',
     'Wr.content_length_nbsp_witness',
+    # request side, part 2 (WirePath.lean, namespace Wq): ONE wire request (method, raw request-target bytes, scheme, server / client address, mount point,
+    # field lines) -> the PEP 3333 environ and the ASGI scope (with the liberties the specs leave to a server) -> falcon's two constructors / property sets
+    'Wq.request_view_agree',
+    'Wq.method_agree', 'Wq.path_agree', 'Wq.wsgiPath_eq', 'Wq.strict_server_path_agree', 'Wq.path_ne_nil', 'Wq.root_path_agree',
+    'Wq.query_string_agree', 'Wq.params_agree', 'Wq.params_closed_form', 'Wq.wsgiQueryString_eq', 'Wq.wsgiParams_eq',
+    'Wq.scheme_agree', 'Wq.host_agree', 'Wq.port_agree', 'Wq.netloc_agree', 'Wq.client_agree', 'Wq.remote_addr_agree', 'Wq.access_route_agree',
+    # the facts they rest on: CGI keys are independent of the header lines, raw header values agree, UTF-8 strict vs lenient, str(int) / int(str)
+    'Wq.dget_environ_plain', 'Wq.hdr_agree', 'Wq.decodeStrict_replace', 'Wq.decodeStrict_ascii', 'Wq.latin1Enc_latin1', 'Wq.latin1_encode_ascii',
+    'Wq.pyInt_natStr', 'Wq.natStr_inj',
+    # the exclusions of the domain are exact (iff) ...
+    'Wq.method_agree_iff', 'Wq.query_string_agree_iff', 'Wq.decodeStrict_latin1_iff', 'Wq.root_path_agree_iff',
+    # ... or at least necessary (witnesses by evaluation)
+    'Wq.method_case_witness', 'Wq.scheme_port_witness', 'Wq.scheme_netloc_witness', 'Wq.raw_query_witness', 'Wq.raw_query_raises_witness', 'Wq.root_path_witness',
+    'Wq.empty_client_witness', 'Wq.client_none_witness', 'Wq.server_missing_witness', 'Wq.repeated_host_witness', 'Wq.underscore_route_witness',
+    'Wq.strict_server_witness',
 ]
 STATEMENTS = {
     'Fz.wsgi_asgi_agree': 'for every response state (status, text, data, rendered media, stream kind/chunks/failing call, header dict in insertion order, cookies) and configuration (HEAD, default media type, file_wrapper): falcon.App.__call__ and falcon.asgi.App.__call__ hand the server the same status, the same header list in the same order, the same payload bytes and propagate a stream failure identically',
@@ -40,14 +55,57 @@ STATEMENTS = {
     'Wr.underscore_wire_name_witness': 'X_A: 1 + X-A: 2 gives get_header("X-A") == "1,2" on WSGI and "2" on ASGI',
     'Wr.underscore_lookup_name_witness': 'for the well-formed request X-A: 1, get_header("X_A") is "1" on WSGI and None on ASGI',
     'Wr.non_ascii_lookup_name_witness': 'for the well-formed request SS: 1, get_header("\\xdf") is "1" on WSGI ("\\xdf".upper() == "SS") and None on ASGI',
+    'Wq.request_view_agree': 'for every wire request (method token, raw request-target bytes, scheme, server name/port, client address or none, mount point, field lines) of the domain wfConn - ASCII request-target '
+                             '(arbitrary bytes percent-encoded, also ones that decode to invalid UTF-8), upper-case method, scheme http or https, ASCII mount point, non-empty client address if any, header names ASCII without "_" '
+                             'and no repeated singleton header, the ASGI server tells its own address and reports an unknown client by omission - for every liberty the two specifications leave to the servers '
+                             '(SCRIPT_NAME / QUERY_STRING left out when empty, scope root_path left out when empty, scope scheme left out when "http") and all eight settings of strip_url_path_trailing_slash / '
+                             'keep_blank_qs_values / auto_parse_qs_csv: method, path, query_string, params, root_path (= app), scheme, host, port, netloc, remote_addr and access_route of '
+                             'falcon.Request(environ built by a PEP 3333 server) and falcon.asgi.Request(scope built by an ASGI server) are the same values, or both raise HTTPInvalidHeader (Host)',
+    'Wq.path_agree': 'WITHOUT any hypothesis - every raw request-target (any bytes, any well- or ill-formed percent-escapes, escapes that decode to invalid UTF-8), both values of strip_url_path_trailing_slash, every server liberty: '
+                     'req.path of falcon.Request (PATH_INFO = percent-decoded bytes tunnelled as Latin-1, re-encoded by falcon and decoded as UTF-8 with U+FFFD, isascii() fast path, "or \'/\'") equals req.path of '
+                     'falcon.asgi.Request (scope["path"] = the same bytes decoded leniently by the server, "or \'/\'")',
+    'Wq.wsgiPath_eq': 'closed form: the WSGI constructor undoes the Latin-1 tunnel exactly - req.path = strip(utf8-replace(percent-decode(raw path)) or "/") and it never raises',
+    'Wq.strict_server_path_agree': 'an ASGI server that decodes the path strictly (and answers 400 itself when that fails) hands over the same scope["path"] whenever it calls the application: the agreement holds on its smaller domain too',
+    'Wq.path_ne_nil': 'req.path is never empty (an empty path becomes "/", and "/" is never stripped)',
+    'Wq.root_path_agree': 'root_path / app: SCRIPT_NAME (present, or left out because empty) = scope["root_path"] (present, or left out because empty) for an ASCII mount point',
+    'Wq.root_path_agree_iff': 'exactly then: for a non-ASCII mount point the two differ (falcon returns SCRIPT_NAME without undoing the Latin-1 tunnel it undoes for PATH_INFO)',
+    'Wq.query_string_agree': 'req.query_string: QUERY_STRING (or "" when the key is left out) = scope["query_string"].decode() for an ASCII request-target; the ASGI constructor does not raise',
+    'Wq.query_string_agree_iff': 'exactly then: the two query strings are equal IF AND ONLY IF the raw query has no non-ASCII byte (strict UTF-8 vs Latin-1 reading)',
+    'Wq.params_agree': 'req.params: both stacks call parse_query_string (Qs.parseQS of C08) on the same text with the same keep_blank_qs_values / auto_parse_qs_csv, and skip it for an empty query',
+    'Wq.params_closed_form': 'and that text is the raw query: req.params = parse_query_string(raw query bytes) - every C08 theorem about the raw query string applies to both request classes',
+    'Wq.method_agree_iff': 'req.method agrees IF AND ONLY IF the method token is its own upper() (ASGI hands the method over upper-cased, WSGI as sent)',
+    'Wq.scheme_agree': 'req.scheme: wsgi.url_scheme = scope["scheme"] with its default "http", for EVERY scheme (the key may be left out only when it is "http")',
+    'Wq.host_agree': 'req.host: parse_host(Host) / HTTPInvalidHeader, else SERVER_NAME = scope["server"][0]',
+    'Wq.port_agree': 'req.port: the port in Host, else 80/443 by scheme (WSGI tests scheme == "http", ASGI scheme in (https, wss): the same on http/https), else int(SERVER_PORT) = scope["server"][1] (int(str(p)) = p)',
+    'Wq.netloc_agree': 'req.netloc: Host verbatim, else name[:port] with the default port left out - WSGI compares the decimal string with "443"/"80", ASGI the int with 443/80 (str is injective on naturals)',
+    'Wq.remote_addr_agree': 'req.remote_addr: REMOTE_ADDR (default 127.0.0.1) = the last element of the ASGI access_route (scope["client"][0], default 127.0.0.1), whatever forwarding headers are present',
+    'Wq.access_route_agree': 'req.access_route: the same header-derived route (Forwarded / X-Forwarded-For / X-Real-IP: Fw.accessRoute of C09 on the same raw header values) completed with the same client address',
+    'Wq.hdr_agree': 'for every header list of the Wr domain and every ASCII "_"-free name: environ[HTTP_<NAME>] and _asgi_headers[name.lower()] are both absent or hold the same value',
+    'Wq.dget_environ_plain': 'a CGI / wsgi.* key of the PEP 3333 environ is read from its fixed part, whatever the header lines are (no header can shadow REQUEST_METHOD, PATH_INFO, ...)',
+    'Wq.method_case_witness': 'method "get": WSGI "get", ASGI "GET" (everything else inside the domain)',
+    'Wq.scheme_port_witness': 'scheme "ftp", Host: h - port 443 on WSGI, 80 on ASGI',
+    'Wq.scheme_netloc_witness': 'scheme "wss", no Host, server port 443 - netloc "srv:443" on WSGI, "srv" on ASGI',
+    'Wq.raw_query_witness': 'raw query bytes q=C3 A9: query_string "q=\\xc3\\xa9" on WSGI, "q=\\xe9" on ASGI',
+    'Wq.raw_query_raises_witness': 'raw query byte FF: falcon.asgi.Request() raises UnicodeDecodeError, falcon.Request() does not',
+    'Wq.root_path_witness': 'mount point "/\\xe9": root_path "/\\xc3\\xa9" on WSGI, "/\\xe9" on ASGI',
+    'Wq.empty_client_witness': 'client address "": remote_addr "" / access_route [""] on WSGI, IndexError / [] on ASGI',
+    'Wq.client_none_witness': 'scope["client"] = None (the default of the spec, sent explicitly): remote_addr / access_route raise TypeError on ASGI; 127.0.0.1 when the key is missing and on WSGI',
+    'Wq.server_missing_witness': 'scope without "server" (or None), no Host header: ASGI host/port/netloc are localhost / 80 / "localhost", WSGI answers SERVER_NAME / SERVER_PORT',
+    'Wq.repeated_host_witness': 'Host: a + host: b:81 - host "a,b" / netloc "a,b:81" on WSGI, "b" / "b:81" on ASGI',
+    'Wq.underscore_route_witness': 'X_Forwarded_For: 7.7.7.7 - access_route [7.7.7.7, 127.0.0.1] on WSGI, [127.0.0.1] on ASGI',
+    'Wq.strict_server_witness': '"/%ff": a strict ASGI server refuses the request itself; the lenient one and WSGI both give "/\\ufffd"',
 }
 TRUSTED = [
     'harness/lib_http.py: the spec-faithful WSGI and ASGI drivers (written from PEP 3333 / RFC 3875 and the ASGI HTTP spec) are what "a server" means',
     'a mounted application sees the path without the mount point on both interfaces (SCRIPT_NAME / root_path), as falcon documents',
     'asyncio.wait_for(app, 2 s) deciding "the ASGI application did not return"',
+    'Wq: Qs.parseQS (C08) as parse_query_string, Fw.accessRoute (C09) as the header-derived access route, Hp.parseHost / Hp.pyInt (C09) as parse_host / int() - each tied to the code by its own property\'s correspondence and again, end to end, by the third correspondence here',
 ]
 ASSUMPTIONS = [
     'domain of "the same HTTP request": ASCII request-target with RFC 3986 characters (arbitrary path bytes only percent-encoded), header names are tokens without "_", values latin-1 without surrounding whitespace, singleton headers (Content-Length, Content-Type, Cookie, Expect, From, Host, Max-Forwards, Referer, User-Agent) not repeated, a non-empty body is framed by a matching Content-Length',
+    'request line / connection (Wq.wfConn): additionally an upper-case method token (ASGI upper-cases, WSGI does not), scheme http or https (the "http" connection scope), an ASCII mount point, a non-empty client address when the client is known; '
+    'the ASGI server percent-decodes the path and decodes it as UTF-8 LENIENTLY (U+FFFD per maximal invalid subpart: lib_http, and uvicorn / hypercorn / daphne through urllib.parse.unquote) - a strict server answers 400 itself and is covered by '
+    'Wq.strict_server_path_agree; it puts its own address into scope["server"] and reports an unknown client by leaving "client" out. Each exclusion has a machine-checked witness that it is necessary',
     'documented per-interface differences are normalised away: req.headers key case (compared lower-cased), chunk boundaries of body iteration (bytes compared), header order / name case of the response (compared as multiset of lower-cased pairs), reason phrase (ASGI carries only the code)',
     'requests that wsgiref.validate refuses before calling the app (malformed Content-Length) cannot be expressed through falcon.testing on WSGI and are compared on the other three paths only',
     '204/304 responses that carry a Content-Type (set by the application, or the F16 class) make wsgiref.validate inside falcon.testing raise on WSGI; they are compared on the other three paths only (C05 reports F16)',
@@ -61,10 +119,20 @@ RULE = ('random wire-level requests: method x path from 0-4 segments (plain, per
         'Header-store cases (second correspondence): 0-8 field lines drawn with repeats from a per-case pool of singleton / non-singleton / look-alike (Content-Typ, Http-Content-Type, SS) / "_" names in random '
         'per-character case, values incl. empty, latin-1, commas, Content-Length grammars (signs, underscores, NBSP); 60 % repaired into the theorem domain (singletons once, no "_"); 2-8 looked-up names per case '
         '(present names re-cased, "-"/"_" swapped, absent, latin-1 such as "\xdf"), each with get_header(n), (n, default=), (n, required=True); environ / scope built by lib_http, '
-        'falcon.Request / falcon.asgi.Request constructed directly; non-trivial = at least two field lines')
-PARTIAL = ('The Lean theorems cover the response side (finalization of any response state is identical on both stacks) and, on the request side, the header stores: get_header, headers / headers_lower, '
-           'content_type, content_length agree for every header list of the domain (Wr.*). The remaining request attributes (path, query parameters, host/port/scheme/URL parts, forwarding, typed header accessors, '
-           'cookies, body, media) and the equivalence of falcon.testing.simulate_request with the spec-faithful drivers rest on the differential comparison only (translation-validation strength, not proof).')
+        'falcon.Request / falcon.asgi.Request constructed directly; non-trivial = at least two field lines. '
+        'Target / connection cases (third correspondence): method (11 standard tokens; 6 % lower / mixed case) x raw request-target BYTES: path "/" (6 %), empty (3 %, mount point = whole path) or 1-4 segments from 39 '
+        '(plain, percent-encoded UTF-8 of 2/3/4 bytes, truncated / overlong / surrogate / > U+10FFFF sequences, lone continuation bytes, malformed "%", "%zz", %2F, %3F, %25, "+") with 0-2 trailing slashes, 4 % with a raw non-ASCII byte; '
+        'query from 30 (repeats, blanks, CSV, escapes, second "?", "&&", "=v"), 10 % "?" with an empty query, 6 % with raw non-ASCII bytes x scheme (http / https; 8 % ws, wss, ftp, HTTP, HTTPS, "") x 5 server names x 9 ports '
+        '(0, 80, 443, 800, 4430, 8000, 8080, 8443, 65535) x client (absent, 5 addresses incl. IPv6, 3 % the empty address) x mount point ("", /app, /a/b, /app/, /A; 5 % non-ASCII) x Host header (70 %: 24 values incl. IPv6, empty and '
+        'signed / padded / underscored / non-numeric ports; 4 % repeated) x X-Forwarded-For / X-Real-Ip / Forwarded (15 % each, random case, sometimes repeated) x 3 % a "_" look-alike name x the server liberties (SCRIPT_NAME / QUERY_STRING / '
+        'root_path / scheme left out when they hold the default, client None instead of missing 8 %, server key missing / None 12 %) x the 8 option settings; environ / scope built by lib_http (raw non-ASCII bytes and a non-ASCII mount '
+        'point by the same rules on bytes: Latin-1 tunnel / bytes), falcon.Request / falcon.asgi.Request constructed directly, 11 attributes (+ app == root_path) read from each; non-trivial = an escape in the target, a query, or no Host')
+PARTIAL = ('The Lean theorems cover the response side (finalization of any response state is identical on both stacks) and, on the request side, (1) the header stores: get_header, headers / headers_lower, '
+           'content_type, content_length agree for every header list of the domain (Wr.*), and (2) the request line and the connection: method, path, query_string, params, root_path / app, scheme, host, port, netloc, '
+           'remote_addr, access_route agree for every wire request of the domain and every liberty of the servers (Wq.request_view_agree; path and scheme without any hypothesis; the method / query / mount-point exclusions '
+           'proved exact, the others necessary). The remaining request attributes (uri / url / relative_uri / prefix and the forwarded_* family, subdomain, typed header accessors, cookies, body, media), the http_version '
+           '(no Request attribute on either stack; only falcon.asgi.App validates scope["http_version"]) and the equivalence of falcon.testing.simulate_request with the spec-faithful drivers rest on the differential '
+           'comparison only (translation-validation strength, not proof).')
 JOBS = {'quick': 4, 'thorough': 16}
 
 SINGLETONS = ('content-length', 'content-type', 'cookie', 'expect', 'from', 'host', 'max-forwards', 'referer', 'user-agent')
@@ -721,6 +789,11 @@ def target_part(ctx, rnd, falcon, H, json):
             return 'EXC'
         return show(v)
 
+    def pretty(x):
+        """'.104.105' -> "'hi'" (for messages only)"""
+        import re
+        return re.sub(r'\.(\d+(?:\.\d+)*)?(?![\d.])', lambda m: repr(''.join(chr(int(t)) for t in (m.group(1) or '').split('.') if t)), x)
+
     def show_params(p):
         if not p:
             return '-'
@@ -861,7 +934,7 @@ def target_part(ctx, rnd, falcon, H, json):
                      and lib['server_key'] == 'g' and not (client is None and lib['client_None'])
                      and all('_' not in n for n, _ in headers) and all(lows.count(x) <= 1 for x in SINGLETONS))
         if in_domain:
-            bad = [f'{NAMES[i]}: WSGI {wobs[i]} vs ASGI {aobs[i]}' for i in range(min(len(wobs), len(aobs))) if wobs[i] != aobs[i]]
+            bad = [f'{NAMES[i]}: WSGI {pretty(wobs[i])} vs ASGI {pretty(aobs[i])}' for i in range(min(len(wobs), len(aobs))) if wobs[i] != aobs[i]]
             if len(wobs) != len(aobs) or len(wobs) != len(NAMES):
                 bad.append(f'constructor: WSGI {wobs[:1]} vs ASGI {aobs[:1]}')
             ctx.oracle(ORACLE, not bad, '; '.join(bad) or None, case)
@@ -883,12 +956,16 @@ def target_part(ctx, rnd, falcon, H, json):
 
 LEVEL_TEXT = ('Proof, partial. Machine-checked (Lean 4): the response-finalization tails of falcon.App.__call__ and falcon.asgi.App.__call__ produce the same status, header list, payload and '
               'error propagation for every response state (wsgi_asgi_agree) - tied to the real apps by a differential correspondence driven through spec-faithful WSGI and ASGI drivers; '
-              'and for every wire-level header list with token names and no repeated singleton header, the PEP 3333 environ + falcon.Request and the ASGI scope + falcon.asgi.Request answer get_header (every spelling, '
-              'required=, default=), headers_lower, content_type and content_length identically (header_lookup_agree, headers_agree, content_type_agree, content_length_agree; the singleton exclusion is proved exact) - '
-              'tied to the real request classes by a second correspondence that also covers requests outside the domain. '
-              'The rest of the request side (path, query, URL parts, forwarding, typed accessors, cookies, body under every chunking, media) and the equivalence of falcon.testing.simulate_request with the '
+              'for every wire-level header list with token names and no repeated singleton header, the PEP 3333 environ + falcon.Request and the ASGI scope + falcon.asgi.Request answer get_header (every spelling, '
+              'required=, default=), headers_lower, content_type and content_length identically (header_lookup_agree, headers_agree, content_type_agree, content_length_agree; the singleton exclusion is proved exact); '
+              'and for every wire request (raw request-target bytes with arbitrary percent-escapes, method, scheme, server / client address, mount point, Host or not) of the stated domain, every liberty the two specifications '
+              'leave to a server and every setting of the request options, method, path, query_string, params, root_path / app, scheme, host, port, netloc, remote_addr and access_route are identical '
+              '(Wq.request_view_agree; path_agree and scheme_agree hold without any hypothesis; each exclusion of the domain has a machine-checked witness, three are proved exact) - '
+              'both request-side models are tied to the real request classes by correspondences that also cover requests outside the domain. '
+              'The rest of the request side (URL reconstruction, the forwarded_* family, typed accessors, cookies, body under every chunking, media) and the equivalence of falcon.testing.simulate_request with the '
               'spec-faithful drivers are established by differential comparison on generated wire-level requests only.')
 LEVEL_NOTE = ('Trusted: Lean kernel + standard axioms; harness/lib_http.py as the meaning of "a PEP 3333 server" / "an ASGI server"; the comparison harness. '
-              'On the request side the theorems cover the header stores only (model Wr: code points < 256, str.upper()/lower() tables checked against Python on every run); the other request attributes and '
+              'On the request side the theorems cover the header stores (model Wr: code points < 256, str.upper()/lower() tables checked against Python on every run) and the request line / connection attributes '
+              '(model Wq: CPython UTF-8 decoding as U8.decodeReplace / a strict twin, str(int) as Nat.toDigits); the other request attributes and '
               'falcon.testing rest on the differential comparison (translation-validation strength).')
-TECHNIQUE = 'Lean 4 relational theorems (WSGI tail = ASGI tail; WSGI header store = ASGI header store via a common canonical form) + 4-way differential comparison: spec WSGI driver / spec ASGI driver / falcon.testing on each stack, on generated wire-level requests'
+TECHNIQUE = 'Lean 4 relational theorems (WSGI tail = ASGI tail; WSGI header store = ASGI header store via a common canonical form; WSGI view = ASGI view of one wire request, per attribute and as a record) + 4-way differential comparison: spec WSGI driver / spec ASGI driver / falcon.testing on each stack, on generated wire-level requests'
